@@ -17,6 +17,7 @@
 -/
 import RotoV.Lemmas.TraceSpec
 import RotoV.Lemmas.LowerSim
+import RotoV.Lemmas.TraceSpecMono
 import RotoV.Props.C01Dce
 
 namespace RotoV.C08
@@ -244,6 +245,25 @@ theorem script_call_after_arguments (fns : List FnDef) (n : Nat) (env env' : Env
     (hb : bindParams fd.params vs [] = some cenv) :
     (evalExpr fns (n + 1) env (.call f args)).tr = t ++ (evalBlock fns n cenv fd.body).tr := by
   simp only [evalExpr, bind_eq, R.bind_yields h, hf, hb]
+
+/-- **The specification does not depend on the fuel**: once a call of `main`
+    ends without running out of fuel, every larger fuel gives the same host
+    calls and the same result. (Fuel only bounds the depth of the evaluation;
+    proved for all nine evaluators at once, `mono_all`.) -/
+theorem run_fuel_independent (fns : List FnDef) (args : List Val) (fuel fuel' : Nat)
+    (h : (run fns fuel args).result ≠ .fuel) (hle : fuel ≤ fuel') : run fns fuel' args = run fns fuel args := by
+  unfold run at h ⊢
+  cases hm : fns.getLast? with
+  | none => rfl
+  | some fd =>
+    simp only [hm] at h ⊢
+    cases hb : bindParams fd.params args [] with
+    | none => rfl
+    | some cenv =>
+      simp only [hb] at h ⊢
+      have hne : (evalBlock fns fuel cenv fd.body).out ≠ .fuel := by
+        intro hh; apply h; simp [hh]
+      rw [evalBlock_fuel_mono fns cenv fd.body fuel hne fuel' hle]
 
 /-! ### T2 — lowerS_trace: the lowering model makes the calls of the specification
 
@@ -524,6 +544,8 @@ example : (lowerFn demoFn7).isSome = true := by decide
 example : bodyValue (evalBlock [] 40 [(0, .int 4)] demoFn7.body).out = some (.int 9) := by decide
 example : (evalBlock [] 40 [(0, .int 4)] demoFn7.body).tr
     = [⟨0, [.int 1, .int 4]⟩, ⟨0, [.int 2, .int 4]⟩, ⟨0, [.int 2, .int 5]⟩] := by decide
+-- run_fuel_independent: the hypothesis holds at fuel 40
+example : (run demoProg 40 [.int 5]).result ≠ .fuel := by decide
 -- lowerS_run_partial: `run` on the two-function program above
 example : (run demoProg 40 [.int 5]).result = .ok (.int 12) := by decide
 example : demoProg.getLast?.isSome = true := by decide
